@@ -3,6 +3,7 @@ package linter
 import (
 	"fmt"
 	"strings"
+	"sync"
 
 	"github.com/pkg/errors"
 	"github.com/ysugimoto/falco/v2/ast"
@@ -18,9 +19,11 @@ import (
 type Linter struct {
 	Errors     []*LintError
 	FatalError *FatalError
-	lexers     map[string]*lexer.Lexer
-	ignore     *ignore
-	conf       *config.LinterConfig
+	// mu guards Errors: custom linter plugins report from concurrent goroutines
+	mu     sync.Mutex
+	lexers map[string]*lexer.Lexer
+	ignore *ignore
+	conf   *config.LinterConfig
 }
 
 func New(c *config.LinterConfig, opts ...optionFunc) *Linter {
@@ -40,6 +43,9 @@ func (l *Linter) Lexers() map[string]*lexer.Lexer {
 }
 
 func (l *Linter) Error(err error) {
+	l.mu.Lock()
+	defer l.mu.Unlock()
+
 	if le, ok := err.(*LintError); ok {
 		if !l.ignore.IsEnable(le.Rule) {
 			l.Errors = append(l.Errors, le)
